@@ -2,6 +2,7 @@ package rules
 
 import (
 	"gldapverif/an"
+	"gldapverif/report"
 
 	"golang.org/x/tools/go/ssa"
 )
@@ -101,6 +102,12 @@ func checkC16(c *Ctx) {
 	c.checkSID()
 	c.checkEntryOrder()
 	c.checkPairedValues()
+	// C16-validates: "invalid input yields an error or the documented default": the one constructor with a validation
+	// table of its own, NewControlBeheraPasswordPolicy, rejects exactly the invalid option combinations (rule C14-behera:
+	// truth table over all option subsets and values)
+	if c.importRules(checkC14, func(o report.Obligation) bool { return o.Rule == "C14-behera" }, "C16-validates", " - an invalid combination of options is accepted (or a valid one refused) instead of yielding an error") > 0 {
+		R.Floor("C16-validates", 1)
+	}
 	R.NotDecided = append(R.NotDecided, "ConvertString inverts BER wrapping for every string (value equality)", "SIDBytesToString(SIDBytes(r,a)) == \"S-r-a\" (value equality)")
 	R.Assumptions = append(R.Assumptions, "receivers are values produced by gldap itself (non-nil Request with a message)")
 }
